@@ -60,7 +60,10 @@ func runC03(c *Ctx, r *Report) {
 	r.Floor("C03-b/map-order", 10, "aggregator accessors")
 	c13TieBreak(c, r, "C03-b/tie-break")
 	c03CSV(c, r)
+	c03CSVVerbatim(c, r, "C03-c/csv-verbatim")
 	c03ExitStatus(c, r)
+	// the exit status reads the read-error count: every failure is counted (the C06-b rules)
+	borrow(c, r, c06ErrorsCounted, "C06-b", "C03-d", nil, true)
 	// (e) what the aggregators fold is what was extracted: the redundant-state rules of C07
 	borrow(c, r, c07PairedUpdates, "C07-a", "C03-e", nil, true)
 	borrow(c, r, c07ParseErrors, "C07-c", "C03-e", nil, true)
